@@ -9,7 +9,7 @@ open EupsModel EupsModel.Setup
 /-- `eups.app.setup`: when `Eups.setup` does not succeed, the command list is `["false"]` or an exception
 (or, in the model only, out-of-fuel) leaves the function: no `export`, `unset` or function definition is emitted —
 for every database, request, direction, prior environment and fuel. -/
-theorem C02_failed_request_emits_nothing (db : Db) (fuel : Nat) (fwd : Bool) (r : Request) (e : Env)
+theorem C02_failed_request_emits_nothing (db : Db) (fuel : Nat) (fwd : Bool) (r : Request) (e : Setup.Env)
     (hfail : ∀ s, (if fwd then runSetup db fuel r e else runUnsetup db fuel r e) ≠ .ok s) :
     appSetup db fuel fwd r e = .cmds [.false_] ∨ appSetup db fuel fwd r e = .raised ∨
     appSetup db fuel fwd r e = .fuel := by
@@ -58,7 +58,7 @@ def dbA : Db :=
     tags := [(tagCurrent, nA, v1)] }
 
 /-- setup then unsetup, both successful -/
-def roundTrip (db : Db) (r : Request) (e0 : Env) : Option Env :=
+def roundTrip (db : Db) (r : Request) (e0 : Setup.Env) : Option Setup.Env :=
   match runSetup db 10 r e0 with
   | .ok s1 => (match runUnsetup db 10 r s1.env with
     | .ok s2 => some s2.env
@@ -66,9 +66,9 @@ def roundTrip (db : Db) (r : Request) (e0 : Env) : Option Env :=
   | _ => none
 
 /-- D15a: `V` was defined before; `envSet(V, …)` and its unsetup leave it unset -/
-def priorA : Env := { Env.empty with vars := [(V, .foreign [111, 108, 100])] }
+def priorA : Setup.Env := { Setup.Env.empty with vars := [(V, .foreign [111, 108, 100])] }
 /-- D15b: `PATH` already held the element the table contributes -/
-def priorB : Env := { Env.empty with paths := [(PATH, [.foreign [47, 117], .own (nA, v1) [47, 98]])] }
+def priorB : Setup.Env := { Setup.Env.empty with paths := [(PATH, [.foreign [47, 117], .own (nA, v1) [47, 98]])] }
 
 theorem C02_inverse_not_full_envSet :
     ∃ e2, roundTrip dbA reqA priorA = some e2 ∧ ¬ e2.approx priorA := by
